@@ -25,6 +25,7 @@ type structFieldSet struct {
 
 type structDecoder struct {
 	fieldMap           map[string]*structFieldSet
+	fieldList          []*structFieldSet // the fields in declaration order, for case-insensitive lookup
 	fieldUniqueNameNum int
 	stringDecoder      *stringDecoder
 	structName         string
@@ -57,6 +58,15 @@ func toASCIILower(s string) string {
 		b[i] = largeToSmallTable[b[i]]
 	}
 	return string(b)
+}
+
+func isASCII(s string) bool {
+	for i := 0; i < len(s); i++ {
+		if s[i] >= 0x80 {
+			return false
+		}
+	}
+	return true
 }
 
 func newStructDecoder(structName, fieldName string, fieldMap map[string]*structFieldSet) *structDecoder {
@@ -98,6 +108,12 @@ func (d *structDecoder) tryOptimize() {
 	conflicted := map[string]struct{}{}
 	for k, v := range d.fieldMap {
 		key := strings.ToLower(k)
+		if !isASCII(k) {
+			// the bitmap matcher folds ASCII letters only: names with other characters need
+			// the generic lookup, which applies Unicode case folding
+			d.isTriedOptimize = true
+			return
+		}
 		if key != k {
 			if key != toASCIILower(k) {
 				d.isTriedOptimize = true
@@ -384,9 +400,20 @@ func decodeKey(d *structDecoder, buf []byte, cursor int64) (int64, *structFieldS
 	k := *(*string)(unsafe.Pointer(&key))
 	field, exists := d.fieldMap[k]
 	if !exists {
-		return cursor, nil, nil
+		return cursor, d.lookupFieldByFold(k), nil
 	}
 	return cursor, field, nil
+}
+
+// lookupFieldByFold finds the first field (in declaration order) whose name equals key under
+// Unicode case folding, as encoding/json does when no field matches exactly.
+func (d *structDecoder) lookupFieldByFold(key string) *structFieldSet {
+	for _, field := range d.fieldList {
+		if strings.EqualFold(field.key, key) {
+			return field
+		}
+	}
+	return nil
 }
 
 func decodeKeyByBitmapUint8Stream(d *structDecoder, s *Stream) (*structFieldSet, string, error) {
@@ -676,7 +703,10 @@ func decodeKeyStream(d *structDecoder, s *Stream) (*structFieldSet, string, erro
 		return nil, "", err
 	}
 	k := *(*string)(unsafe.Pointer(&key))
-	return d.fieldMap[k], k, nil
+	if field, exists := d.fieldMap[k]; exists {
+		return field, k, nil
+	}
+	return d.lookupFieldByFold(k), k, nil
 }
 
 func (d *structDecoder) DecodeStream(s *Stream, depth int64, p unsafe.Pointer) error {
